@@ -194,17 +194,20 @@ def run(chk):
     res = vlib.harness("deporder_generic", big, W, tag="gen_big")
     all_abs += abs_rows(big, res, "generic")
     chk.cov["evaluations"] += len(big)
-    for which in EMBEDDED:
+    # `form` varies how a dependency is expressed (GDS: SREF / AREF / both and repeated; raw, tetris: leaves with an
+    # abstract view only / repeated instances): what counts as "a depends on b" must not depend on the form
+    FORMS = {"gds": (0, 1, 2), "tetris": (0, 1, 2), "raw": (0, 1, 2)}
+    for which, form in [(w, f) for w in EMBEDDED for f in FORMS.get(w, (0,))]:
         cases = []
+        label = which if form == 0 else f"{which}+form{form}"
         for c in small + big:
-            if which in ("tetris", "tproto", "raw", "rawproto") or True:
-                cc = {"id": c["id"], "deps": c["deps"], "items": c["items"], "which": which}
-                if "wit" in c:
-                    cc["wit"] = c["wit"]
-                cases.append(cc)
-        res = vlib.harness("deporder_embedded", cases, W, tag=f"emb_{which}", timeout_ms=20000)
+            cc = {"id": c["id"], "deps": c["deps"], "items": c["items"], "which": which, "form": form}
+            if "wit" in c:
+                cc["wit"] = c["wit"]
+            cases.append(cc)
+        res = vlib.harness("deporder_embedded", cases, W, tag=f"emb_{which}_{form}", timeout_ms=20000)
         chk.cov["evaluations"] += len(cases)
-        all_abs += abs_rows(cases, res, which)
+        all_abs += abs_rows(cases, res, label)
         chk.sample({"orderer": which, "graph": {"deps": cases[5]["deps"], "items": cases[5]["items"]}, "code": [res[5]["outcome"], res[5].get("order")]})
 
     # ---- property verdicts by TLC (Trace_DepOrderAbs)
@@ -257,13 +260,14 @@ def run(chk):
 
 def replay(chk, path):
     d = json.load(open(path))
-    which = d["where"]
+    which, _, form = d["where"].partition("+form")
+    form = int(form) if form else 0
     cases = []
     for i, v in enumerate(d["cases"]):
         c = v["case"]
         if isinstance(c["deps"], str):
             continue
-        cases.append({"id": i, "deps": c["deps"], "items": c["items"], "which": which, "events": True})
+        cases.append({"id": i, "deps": c["deps"], "items": c["items"], "which": which, "form": form, "events": True})
     res = vlib.harness("deporder_generic" if which == "generic" else "deporder_embedded", cases, chk.workdir)
     for c, r in zip(cases, res):
         print(json.dumps({"case": c, "result": r}))
